@@ -12,7 +12,7 @@ import (
 // c11Wrap is what newRX prepends to the argument in the default build ((?s) with the
 // coraza.rule.no_regex_multiline tag; the analysis below only uses it for features, never for
 // the verdict).
-const c11Wrap = "(?sm)"
+const c11Wrap = rxBuildWrap
 
 func c11Parse(pattern string) (*syntax.Regexp, error) {
 	return syntax.Parse(c11Wrap+pattern, syntax.Perl)
